@@ -118,18 +118,12 @@ theorem unique_spelling (s s' : Bytes) :
   · rw [← a3 r.1 r.2 h, ← b3 r.1 r.2 h']
   · rw [← a4 r.1 r.2 h, ← b4 r.1 r.2 h']
 
-/-! ## rejections -/
+/-! ## rejections
 
-/-- all four parsers (and hence `plugin.NewRecipient` / `NewIdentity`) reject `s`
-    with a Bech32 error satisfying `P` -/
-def RejectedWith (s : Bytes) (P : Bech32.Err → Prop) : Prop :=
-  ∃ e, P e ∧ parseX25519Recipient s = .error (.bech32 e) ∧ parseX25519Identity s = .error (.bech32 e) ∧
-    parseRecipient s = .error (.bech32 e) ∧ parseIdentity s = .error (.bech32 e) ∧
-    newRecipient s = .error (.bech32 e) ∧ newIdentity s = .error (.bech32 e)
-
-theorem rejected_of_decode {s : Bytes} {e : Bech32.Err} (h : decode s = .error e) : RejectedWith s (· = e) := by
-  refine ⟨e, rfl, ?_, ?_, ?_, ?_, ?_, ?_⟩ <;>
-    simp only [parseX25519Recipient, parseX25519Identity, parseRecipient, parseIdentity, newRecipient, newIdentity, h]
+  `RejectedWith s P` (Proofs/Bech32Keys.lean): all four parsers and the two string
+  constructors of plugin/client.go reject `s` with one Bech32 error class `e` satisfying `P e`.
+  `Assembled H d5 cs`: `cs` is the data part (characters) for the symbols `d5` followed by
+  their valid checksum under the lower-case, well-formed HRP `H`. -/
 
 /-- any byte outside printable ASCII (hence any non-ASCII rune, any invalid
     UTF-8, any control character or space) anywhere in the string -/
@@ -182,11 +176,6 @@ theorem reject_mixed_case (s : Bytes) (hU : ∃ c ∈ s, 0x41 ≤ c ∧ c ≤ 0x
 
 example : RejectedWith [0x61, 0x67, 0x65, 0x31, 0x51] (fun e => e = .badChar ∨ e = .mixedCase) :=
   reject_mixed_case _ ⟨0x51, by decide, by decide⟩ ⟨0x61, by decide, by decide⟩
-
-theorem error_of_not_ok {α : Type} (r : Except Keys.Err α) (h : ∀ a, r ≠ .ok a) : ∃ e, r = .error e := by
-  cases r with
-  | ok a => exact absurd rfl (h a)
-  | error e => exact ⟨e, rfl⟩
 
 /-- a string that does not start with the exact prefix of its kind is rejected -/
 theorem reject_wrong_prefix (s : Bytes) :
@@ -251,27 +240,6 @@ theorem accepted_padding (s hrp data : Bytes) (h : decode s = .ok (hrp, data)) :
   obtain ⟨D, d5, d1, _, _, _, _, _, d7, d8⟩ := decode_ok h
   obtain ⟨_, k, hk, hb⟩ := (convertBits_5_8_iff d5 data).mp d8
   exact ⟨D, d5, k, d1, d7, hk, hb⟩
-
-/-- the string made of HRP `H`, data symbols `d5` and their valid checksum -/
-def Assembled (H d5 cs : Bytes) : Prop :=
-  H ≠ [] ∧ hasBadByte H = false ∧ toLower H = H ∧ (∀ x ∈ d5, x.toNat < 32) ∧
-    mapOpt charsetAt (d5 ++ createChecksum H d5) = some cs
-
-theorem decode_of_assembled {H d5 cs : Bytes} (h : Assembled H d5 cs) :
-    decode (H ++ 0x31 :: cs) =
-      match convertBits d5 5 8 false with
-      | .error e => .error e
-      | .ok b => .ok (H, b) := by
-  obtain ⟨h1, h2, h3, h4, h5⟩ := h
-  have hall : ∀ x ∈ d5 ++ createChecksum H d5, x.toNat < 32 := by
-    intro x hx
-    rcases List.mem_append.mp hx with hx | hx
-    · exact h4 x hx
-    · exact createChecksum_lt _ _ x hx
-  obtain ⟨cs', c1, c2, c3, c4, c5⟩ := chars_of_syms _ hall
-  rw [h5] at c1; cases c1
-  exact decode_assembled H cs d5 h1 h2 c3 c4 (Or.inl (by rw [toLower_append, toLower_cons, h3, c2]; rfl))
-    (by rw [c2]; exact c5)
 
 /-- non-zero padding: a data part whose symbol count leaves `r < 5` surplus
     bits, not all zero, is rejected even though its checksum is valid -/
